@@ -509,6 +509,13 @@ func ExpandApk(ctx context.Context, source io.Reader, cacheDir string) (*APKExpa
 		controlDataIndex = 1
 		packageIndex = 2
 	case 2:
+		if sw.maxStreams == 3 {
+			// The first stream is a signature, so a control AND a data stream must follow: with only
+			// one more stream the loop above never reached the data branch (no per-file checksums
+			// verified, the last stream hashed with SHA-1), and the signature would be taken for the
+			// control section and the control section for the data section.
+			return nil, fmt.Errorf("invalid number of tar streams for a signed package: %d", numGzipStreams)
+		}
 		signatureIndex = -1
 		controlDataIndex = 0
 		packageIndex = 1
